@@ -71,9 +71,9 @@ def replay(recipe):
 
 
 def variants(recipe, case):
-    jobs = [(dict(kind='sim', recipe=recipe, mask=MASK), 1),
-            (dict(kind='sim', recipe=recipe, mask=MASK, warmup=2), 7919),
-            (dict(kind='sim', recipe=recipe, mask=MASK, patch_uuid=12345), 424242),
+    jobs = [(dict(kind='sim', recipe=recipe, mask=MASK), 2),
+            (dict(kind='sim', recipe=recipe, mask=MASK, warmup=2), 7),
+            (dict(kind='sim', recipe=recipe, mask=MASK, patch_uuid=12345), 11),
             # the process-global container counter stands just below a power of ten (ids are strings)
             (dict(kind='sim', recipe=recipe, mask=MASK, counter_start=[8, 97, 996, 9995][len(recipe['pipes']) % 4]), 5),
             # scaling laws handed over as anonymous callables, after other simulations did the same
@@ -101,8 +101,13 @@ def run(ctx):
     n = ctx.budget(30, 400)
     for i in range(n):
         rng = ctx.case_rng('G-det', i)
-        rec = [S.gen_preempt(rng, gen='G-det'), S.gen_sim(rng, gen='G-det'),
-               S.gen_saturate(rng, rng.choice(['overbook', 'overbook', 'priority-pool', 'priority']), gen='G-det')][i % 3]
+        # i % 6: contended priority runs, mixed runs, saturated runs, and (single-operator containers) pipelines with
+        # sibling operators of which some are killed and retried while others become ready / parallel chains
+        rec = [lambda: S.gen_preempt(rng, gen='G-det'), lambda: S.gen_sim(rng, gen='G-det'),
+               lambda: S.gen_saturate(rng, rng.choice(['overbook', 'overbook', 'priority-pool', 'priority']), gen='G-det'),
+               lambda: S.gen_abandon(rng, gen='G-det', algo=rng.choice(['priority', 'priority', 'overbook'])),
+               lambda: S.gen_branches(rng, rng.choice(['priority', 'overbook', 'naive']), gen='G-det'),
+               lambda: S.gen_failready(rng, rng.choice(['priority', 'overbook']), gen='G-det')][i % 6]()
         case, run_ = S.drive(rec, MASK)
         case['obs_raw'] = list(case['obs'])
         SP.stats_of(run_, st)
